@@ -371,7 +371,7 @@ ProtocolExtension::send_metadata_piece(size_t piece) {
                          &(*manager->download_manager()->find(m_download->info()))->bencode()->get_key("info"));
 
   // data: { "msg_type" => 1, "piece" => ..., "total_size" => ... } followed by piece data (outside of dictionary)
-  size_t length = piece == pieceEnd - 1 ? m_download->info()->metadata_size() % metadata_piece_size : metadata_piece_size;
+  size_t length = piece == pieceEnd - 1 ? metadataSize - (piece << metadata_piece_shift) : metadata_piece_size;
   m_pendingType = UT_METADATA;
   m_pending = build_bencode((2 * sizeof(size_t)) + length + 120, "d8:msg_typei1e5:piecei%zue10:total_sizei%zuee", piece, metadataSize);
 
